@@ -568,3 +568,21 @@ def sem_dir(m, el, d):
     if got is None:
         return False
     return got == ('ltr' if d & ct.SEL_DIR_LTR else 'rtl')
+
+
+def nth_sibs(m, el, last):
+    parent = el.parent
+    sibs = [c for c in parent.contents if isinstance(c, bs4.Tag)] if parent is not None else [el]
+    return sibs[::-1] if last else sibs
+
+
+def kids_spec(m, el, start, reverse, tags, no_iframe):
+    if el is None or (no_iframe and is_iframe_el(m, el)):
+        return []
+    c = list(el.contents)
+    last = len(c) - 1
+    idx_ = (last if reverse else 0) if start is None else start
+    if not (0 <= idx_ <= last):
+        return []
+    seq = c[idx_::-1] if reverse else c[idx_:]
+    return [x for x in seq if not tags or isinstance(x, bs4.Tag)]
